@@ -285,8 +285,12 @@ class SchemaGen:
 		self.emit(f'enum {type_enum} : uint16', *[f'\tT{index}X = {hex(tag).upper().replace("0X", "0x")}' for index, tag in enumerate(tags)])
 		base = self.fresh('Entity')
 		two_part = self.rng.random() < 0.6
-		lines = ['@size(size)', '@initializes(version, ENTITY_VERSION)' if two_part else None, '@initializes(tag, ENTITY_TAG)',
-			f'@discriminator(tag{", version" if two_part else ""})', '@is_aligned', f'abstract struct {base}', '\tsize = uint32',
+		# the size member of the abstract struct under another name than `size` (its local in `_deserialize` is then that name)
+		size_name = self.rng.choice(['size', 'size', 'total_size', 'entity_size']) if self.variant is None else ['size', 'total_size', 'size', 'entity_size'][self.variant % 4]
+		if 'size' != size_name:
+			self.features.add('size-member-renamed')
+		lines = [f'@size({size_name})', '@initializes(version, ENTITY_VERSION)' if two_part else None, '@initializes(tag, ENTITY_TAG)',
+			f'@discriminator(tag{", version" if two_part else ""})', '@is_aligned', f'abstract struct {base}', f'\t{size_name} = uint32',
 			'\tentity_reserved_1 = make_reserved(uint32, 0)', f'\towner = {self.rng.choice(self.byte_aliases)[0]}' if self.byte_aliases else '\towner = uint64',
 			'\tversion = uint8', f'\ttag = {type_enum}']
 		self.emit(*[line for line in lines if line is not None])
